@@ -350,7 +350,7 @@ func (c02) RunUnit(raw core.Unit, tier string, seed int64) core.UnitResult {
 			if isReadOnlyEvent(e.Op) || e.Op == "write" {
 				continue
 			}
-			cands = append(cands, simfs.Fault{Addr: e.Addr(), Kind: simfs.KErr, Errno: int(simfs.ErrnosFor(e.Op)[0]), Seq: e.Seq})
+			cands = append(cands, simfs.Fault{Addr: e.Addr(), Kind: simfs.KErr, Errno: int(simfs.ErrnoAt(e.Op, e.Seq)), Seq: e.Seq})
 		}
 		frng := rand.New(rand.NewPCG(uint64(u.Seed), 3))
 		if u.Faulted > 0 && len(cands) > u.Faulted {
